@@ -85,6 +85,120 @@ def openArg : Cmd → Flags → Option Bool
   | .check, f => some f.noLock
   | .listLocks, _ => some true
 
+/-! ## The table of `dryRun` arguments, read off the source (T1)
+
+The call lists with argument expressions of the `run…` functions are regenerated from the Go
+source (`Restic.Gen.C39_run…_callargs`). The functions below extract the third argument of every
+`openWith…Lock(ctx, gopts, <expr>, printer)` call and interpret the expression. -/
+
+/-- the expressions commands pass as `dryRun` -/
+inductive DryExpr where
+  | dry               -- `opts.DryRun`
+  | noLock            -- `gopts.NoLock`
+  | dryAndNoLock      -- `opts.DryRun && gopts.NoLock`
+  | noLockOrLocks     -- `gopts.NoLock || args[0] == "locks"`   (`list`)
+deriving DecidableEq, Repr
+
+def parseDryExpr : String → Option DryExpr
+  | "opts.DryRun" => some .dry
+  | "gopts.NoLock" => some .noLock
+  | "opts.DryRun && gopts.NoLock" => some .dryAndNoLock
+  | "gopts.NoLock || args[0] == \"locks\"" => some .noLockOrLocks
+  | _ => none
+
+/-- value of the expression; `locks` = the command is `list locks` -/
+def DryExpr.eval (e : DryExpr) (f : Flags) (locks : Bool) : Bool :=
+  match e with
+  | .dry => f.dryRun
+  | .noLock => f.noLock
+  | .dryAndNoLock => f.dryRun && f.noLock
+  | .noLockOrLocks => f.noLock || locks
+
+/-- The grammar of open calls: every way of writing `openWith…Lock(ctx, gopts, <expr>, <printer>)`
+    with one of the known `dryRun` expressions, as (full call text, helper, expression text).
+    Matching is by equality of the whole call text (cheap for the kernel); a call whose argument
+    is anything else — a local variable, a different condition — is not recognised, and
+    `dryExprOf` then disagrees with the number of open calls reported by the `calls` fact. -/
+def openGrammar : List (String × String × String) :=
+  [
+   ("openWithReadLock(ctx, gopts, opts.DryRun, printer)", "openWithReadLock", "opts.DryRun"),
+   ("openWithReadLock(ctx, gopts, opts.DryRun, termPrinter)", "openWithReadLock", "opts.DryRun"),
+   ("openWithReadLock(ctx, gopts, gopts.NoLock, printer)", "openWithReadLock", "gopts.NoLock"),
+   ("openWithReadLock(ctx, gopts, gopts.NoLock, termPrinter)", "openWithReadLock", "gopts.NoLock"),
+   ("openWithReadLock(ctx, gopts, opts.DryRun && gopts.NoLock, printer)", "openWithReadLock", "opts.DryRun && gopts.NoLock"),
+   ("openWithReadLock(ctx, gopts, opts.DryRun && gopts.NoLock, termPrinter)", "openWithReadLock", "opts.DryRun && gopts.NoLock"),
+   ("openWithReadLock(ctx, gopts, gopts.NoLock || args[0] == \"locks\", printer)", "openWithReadLock", "gopts.NoLock || args[0] == \"locks\""),
+   ("openWithReadLock(ctx, gopts, gopts.NoLock || args[0] == \"locks\", termPrinter)", "openWithReadLock", "gopts.NoLock || args[0] == \"locks\""),
+   ("openWithAppendLock(ctx, gopts, opts.DryRun, printer)", "openWithAppendLock", "opts.DryRun"),
+   ("openWithAppendLock(ctx, gopts, opts.DryRun, termPrinter)", "openWithAppendLock", "opts.DryRun"),
+   ("openWithAppendLock(ctx, gopts, gopts.NoLock, printer)", "openWithAppendLock", "gopts.NoLock"),
+   ("openWithAppendLock(ctx, gopts, gopts.NoLock, termPrinter)", "openWithAppendLock", "gopts.NoLock"),
+   ("openWithAppendLock(ctx, gopts, opts.DryRun && gopts.NoLock, printer)", "openWithAppendLock", "opts.DryRun && gopts.NoLock"),
+   ("openWithAppendLock(ctx, gopts, opts.DryRun && gopts.NoLock, termPrinter)", "openWithAppendLock", "opts.DryRun && gopts.NoLock"),
+   ("openWithAppendLock(ctx, gopts, gopts.NoLock || args[0] == \"locks\", printer)", "openWithAppendLock", "gopts.NoLock || args[0] == \"locks\""),
+   ("openWithAppendLock(ctx, gopts, gopts.NoLock || args[0] == \"locks\", termPrinter)", "openWithAppendLock", "gopts.NoLock || args[0] == \"locks\""),
+   ("openWithExclusiveLock(ctx, gopts, opts.DryRun, printer)", "openWithExclusiveLock", "opts.DryRun"),
+   ("openWithExclusiveLock(ctx, gopts, opts.DryRun, termPrinter)", "openWithExclusiveLock", "opts.DryRun"),
+   ("openWithExclusiveLock(ctx, gopts, gopts.NoLock, printer)", "openWithExclusiveLock", "gopts.NoLock"),
+   ("openWithExclusiveLock(ctx, gopts, gopts.NoLock, termPrinter)", "openWithExclusiveLock", "gopts.NoLock"),
+   ("openWithExclusiveLock(ctx, gopts, opts.DryRun && gopts.NoLock, printer)", "openWithExclusiveLock", "opts.DryRun && gopts.NoLock"),
+   ("openWithExclusiveLock(ctx, gopts, opts.DryRun && gopts.NoLock, termPrinter)", "openWithExclusiveLock", "opts.DryRun && gopts.NoLock"),
+   ("openWithExclusiveLock(ctx, gopts, gopts.NoLock || args[0] == \"locks\", printer)", "openWithExclusiveLock", "gopts.NoLock || args[0] == \"locks\""),
+   ("openWithExclusiveLock(ctx, gopts, gopts.NoLock || args[0] == \"locks\", termPrinter)", "openWithExclusiveLock", "gopts.NoLock || args[0] == \"locks\"")
+  ]
+
+/-- `some (helper, dryRun-argument)` when the call is a recognised open call -/
+def openCall? (call : String) : Option (String × String) :=
+  (openGrammar.find? fun g => g.1 == call).map (·.2)
+
+/-- all recognised open calls of a function, in source order -/
+def openCalls (callargs : List String) : List (String × String) := callargs.filterMap openCall?
+
+def openHelpers : List String := ["openWithReadLock", "openWithAppendLock", "openWithExclusiveLock"]
+
+/-- the single expression a function passes as `dryRun`: all its open calls (their helper names
+    are given by the plain `calls` fact) must be recognised and must agree -/
+def dryExprOf (calls callargs : List String) : Option DryExpr :=
+  let oc := openCalls callargs
+  if oc.map (·.1) != calls.filter (fun c => openHelpers.contains c) then none
+  else match (oc.map (·.2)).eraseDups with
+    | [e] => parseDryExpr e
+    | _ => none
+
+/-- the `errors.Fatal` with which a command refuses `--no-lock` without `--dry-run` -/
+def refusalCalls : List String :=
+  [
+   "errors.Fatal(\"--no-lock is only applicable in combination with --dry-run for backup command\")",
+   "errors.Fatal(\"--no-lock is only applicable in combination with --dry-run for forget command\")",
+   "errors.Fatal(\"--no-lock is only applicable in combination with --dry-run for prune command\")",
+   "errors.Fatal(\"--no-lock is only applicable in combination with --dry-run for rewrite command\")",
+   "errors.Fatal(\"--no-lock is only applicable in combination with --dry-run for repair snapshots command\")",
+   "errors.Fatal(\"--no-lock is only applicable in combination with --dry-run for check command\")",
+   "errors.Fatal(\"--no-lock is only applicable in combination with --dry-run for snapshots command\")",
+   "errors.Fatal(\"--no-lock is only applicable in combination with --dry-run for ls command\")",
+   "errors.Fatal(\"--no-lock is only applicable in combination with --dry-run for find command\")",
+   "errors.Fatal(\"--no-lock is only applicable in combination with --dry-run for stats command\")",
+   "errors.Fatal(\"--no-lock is only applicable in combination with --dry-run for cat command\")",
+   "errors.Fatal(\"--no-lock is only applicable in combination with --dry-run for dump command\")",
+   "errors.Fatal(\"--no-lock is only applicable in combination with --dry-run for diff command\")",
+   "errors.Fatal(\"--no-lock is only applicable in combination with --dry-run for list command\")",
+   "errors.Fatal(\"--no-lock is only applicable in combination with --dry-run for key list command\")",
+   "errors.Fatal(\"--no-lock is only applicable in combination with --dry-run for restore command\")"
+  ]
+
+/-- does the function refuse `--no-lock` without `--dry-run` (as forget and prune do)? -/
+def refusesNoLock (callargs : List String) : Bool := callargs.any fun c => refusalCalls.contains c
+
+/-- per-command facts read off the source: the `dryRun` expression and the refusal guard -/
+structure SourceTable where
+  expr : Cmd → Option DryExpr
+  refuses : Cmd → Bool
+
+/-- `openArg` computed from a source table -/
+def openArgFrom (t : SourceTable) (c : Cmd) (f : Flags) : Option Bool :=
+  if t.refuses c && f.noLock && !f.dryRun then none
+  else (t.expr c).map fun e => e.eval f (c == .listLocks)
+
 /-- Commands that take a lock even in a dry run decide themselves not to write:
     `runForget`: `if !opts.DryRun { ParallelRemove(snapshots) }`;
     `PrunePlan.Execute`: `if plan.opts.DryRun { return }` before any write.
